@@ -432,6 +432,13 @@ func ResultOfAny(calls []ssa.CallInstruction, k int) func(ssa.Value) bool {
 // FieldAddr or Field instruction, and the base value.
 func FieldOf(v ssa.Value) (*types.Var, ssa.Value) {
 	switch x := v.(type) {
+	case *ssa.Parameter:
+		// a pointer-to-field parameter of a helper with one call site: the field whose address is passed
+		if a := BoundArg(x); a != nil {
+			if _, isP := a.(*ssa.Parameter); !isP {
+				return FieldOf(a)
+			}
+		}
 	case *ssa.FieldAddr:
 		st := derefStruct(x.X.Type())
 		if st != nil {
